@@ -34,6 +34,51 @@ static Verdict run_c16(const Case &c)
 {
   Verdict v;
   std::string kind = c.get("kind", "enc");
+  if (kind == "fresh")
+  {
+    // the program validates a key before it has decoded or encoded anything: the very first base64 call of a
+    // process is the validator. Run as the first thing of a shard (nothing decoded yet in this process or its
+    // children), in a forked child; `order` = 0 validator first, 1 the CLI's -k path first.
+    std::vector<std::string> bad;
+    std::string ok = "ABEiM0RVZneImaq7zN3u/w==";
+    for (const char *ch : {"!", "-", "_", " ", ".", "=", "\x80", "\xff", "\x01", "*"})
+      for (size_t pos : {(size_t)0, (size_t)11, (size_t)21})
+      {
+        std::string t = ok;
+        t.replace(pos, 1, ch);
+        bad.push_back(t);
+      }
+    bad.push_back(std::string(22, '!') + "==");
+    bad.push_back(ok.substr(0, 23));
+    bad.push_back(ok + "A");
+    bad.push_back(ok.substr(0, 22) + "A=");
+    long order = c.geti("order");
+    ChildResult r = run_in_child([&]() {
+      Ser s;
+      for (auto &t : bad)
+      {
+        bytes k;
+        bool acc = order ? wapi::cli_key_path(t, k) : wapi::b64_valid_key(t);
+        s.u8(acc);
+      }
+      bytes k;
+      s.u8(order ? wapi::cli_key_path(ok, k) : wapi::b64_valid_key(ok));
+      return s.b;
+    });
+    v.nontrivial = true;
+    v.weight = bad.size() + 1;
+    v.distinct = 0x2000000ull + (uint64_t)order;
+    v.classes.push_back("validator_is_the_first_base64_call_of_the_process");
+    if (r.status != CH_OK)
+      return Verdict::fail("validating keys in a fresh process did not end normally: " + r.describe());
+    De d(r.payload);
+    for (auto &t : bad)
+      if (d.u8())
+        return Verdict::fail(std::string(order ? "the -k option" : "the key validator") + " accepts \"" + t + "\" when it is the first base64 call of the process (it is not the 24-character encoding of 16 bytes)");
+    if (!d.u8())
+      return Verdict::fail(std::string(order ? "the -k option" : "the key validator") + " rejects a valid key when it is the first base64 call of the process");
+    return v;
+  }
   if (kind == "groups")
   {
     // exhaustive: all 3-byte groups with the given top 12 bits
@@ -279,6 +324,14 @@ static void fixed_c16(Ctx &ctx)
     }
     ctx.stats.info["exhaustive_three_byte_groups"] = "all 2^24";
     return;
+  }
+  // first of all, before this process has encoded or decoded anything: the validator as first base64 call
+  for (int order = 0; order < 2; order++)
+  {
+    Case c;
+    c.set("kind", "fresh");
+    c.seti("order", order);
+    eval_fixed(*p, ctx, c);
   }
   // every length 0..64 (all three tail cases) and all-equal fills
   for (int len = 0; len <= 64; len++)
